@@ -106,19 +106,22 @@ impl Operation {
     pub fn divint(lhs: Val, rhs: Val) -> Result<Val> {
         let lhs = i16::try_from(lhs)?;
         let rhs = i16::try_from(rhs)?;
+        if rhs == 0 {
+            return Err(error!(DivisionByZero));
+        }
         match lhs.checked_div(rhs) {
             Some(n) => Ok(Val::Integer(n)),
-            None => Err(error!(DivisionByZero)),
+            None => Err(error!(Overflow)),
         }
     }
 
     pub fn remainder(lhs: Val, rhs: Val) -> Result<Val> {
         let lhs = i16::try_from(lhs)?;
         let rhs = i16::try_from(rhs)?;
-        match lhs.checked_rem(rhs) {
-            Some(n) => Ok(Val::Integer(n)),
-            None => Err(error!(DivisionByZero)),
+        if rhs == 0 {
+            return Err(error!(DivisionByZero));
         }
+        Ok(Val::Integer(lhs.wrapping_rem(rhs)))
     }
 
     pub fn sum(lhs: Val, rhs: Val) -> Result<Val> {
